@@ -6186,6 +6186,8 @@ class Frame(ContainerOperand):
         iloc_key = self._columns._loc_to_iloc(key)
         if not isinstance(iloc_key, INT_TYPES):
             raise RuntimeError(f'Unsupported key type: {key}')
+        if iloc_key < 0: # a negative position (as from ILoc) counts from the end
+            iloc_key += self._columns.__len__()
         return self._insert(iloc_key, container, fill_value=fill_value)
 
     @doc_inject(selector='insert')
@@ -6209,6 +6211,8 @@ class Frame(ContainerOperand):
         iloc_key = self._columns._loc_to_iloc(key)
         if not isinstance(iloc_key, INT_TYPES):
             raise RuntimeError(f'Unsupported key type: {key}')
+        if iloc_key < 0: # a negative position (as from ILoc) counts from the end
+            iloc_key += self._columns.__len__()
         return self._insert(iloc_key + 1, container, fill_value=fill_value)
 
     #---------------------------------------------------------------------------
